@@ -9,7 +9,8 @@ from .. import shimlab as S
 ID = "C05"
 LEVEL = "fault_enumeration"
 RULE = ("scenario trees {one group of 3, hard-link set, two groups} x op {remove, link, link --soft, dedupe with FICLONE "
-        "emulated, dedupe on a file system without reflink, move by rename, move by copy to another device}; the "
+        "emulated, dedupe on a file system without reflink, move by rename, move by copy to another device (rename fails with EXDEV), "
+        "move to another mount point known to fclones (copy without a rename attempt)}; the "
         "mutating-call history of the real binary is recorded twice (must be identical), then for EVERY event k the run "
         "is repeated with the process SIGKILLed just before k, and with call k failing with each errno of {EIO, EXDEV} "
         "(quick) / {EIO, ENOSPC, EXDEV, EPERM, EOPNOTSUPP} (thorough); pairs of failures with EIO: k and the next one or two "
@@ -33,7 +34,7 @@ SCENARIOS = {
     "two_groups": [{"p": "r/a1", "k": "file", "c": ["base", 70000, 1]}, {"p": "r/a2", "k": "file", "c": ["base", 70000, 1]},
                    {"p": "r/b1", "k": "file", "c": ["lit", "bbbb"]}, {"p": "r/x/b2", "k": "file", "c": ["lit", "bbbb"]}],
 }
-OPS = ["remove", "link", "softlink", "dedupe_emulated", "dedupe_native", "move_rename", "move_copy"]
+OPS = ["remove", "link", "softlink", "dedupe_emulated", "dedupe_native", "move_rename", "move_copy", "move_known_mount"]
 
 
 def prepare(tier):
@@ -51,6 +52,9 @@ def op_args(op, sc, case):
         return "move", os.path.join(sc.root, "moved")
     if op == "move_copy":
         return "move", os.path.join(C.EXT4, "fcv.%d.c05mv" % os.getpid())
+    if op == "move_known_mount":
+        # a mount point that fclones' own mount table knows: copy + delete without a rename attempt
+        return "move", os.path.join(C.EXT4, "fcv.%d.c05loop" % os.getpid(), "moved")
     return op, None
 
 
@@ -142,6 +146,15 @@ def check_state(op, fault, second, sc, target, before, report, res, rec_events, 
 
 
 def evaluate(case):
+    if case["op"] == "move_known_mount":
+        if not C.can_loop_mount():
+            return {"violations": [], "nontrivial": None, "outcome": "skipped_no_loop_mount", "evaluations": 1}
+        with C.LoopMount(os.path.join(C.EXT4, "fcv.%d.c05loop" % os.getpid())):
+            return _evaluate(case)
+    return _evaluate(case)
+
+
+def _evaluate(case):
     scenario, op = case["scenario"], case["op"]
     tier = case.get("tier", "quick")
     viol = []
@@ -237,6 +250,6 @@ def evaluate(case):
 def finish(stats, tier):
     c = stats.get("counters", {})
     out = []
-    if c.get("events_in_histories", 0) < 3 * 21:
+    if c.get("events_in_histories", 0) < 3 * 24:
         out.append("histories shorter than 3 mutating events per op on average")
     return out
